@@ -641,6 +641,27 @@ let handle (r : reader) : unit =
        | J2Ok (d1, d2, l) ->
            out_s "OK"; out_n d1; out_n d2; out_int (List.length l);
            List.iter (fun (a, b) -> out_elems a; out_elems b) l)
+  | "ASC2WL" ->
+      (* ASC2WL q1 w1 q2 w2 p1 p2 d1 d2 l1 l2 fold use_len n (ranges1 ranges2)*  : the 2-D ASCII document when
+         every element is labelled with the depths l1 / l2 (<= d1 / d2) *)
+      let q1 = next_qty r in let w1 = next_n r in
+      let q2 = next_qty r in let w2 = next_n r in
+      let p1 = next_n r in let p2 = next_n r in
+      let d1 = next_n r in let d2 = next_n r in
+      let l1 = next_n r in let l2 = next_n r in
+      let fold = next_fold r in
+      let ul = next_int r <> 0 in
+      let l = next_list r (fun r -> let a = next_ranges r in let b = next_ranges r in ((l1, elems_of_moc q1 w1 l1 a), (l2, elems_of_moc q2 w2 l2 b))) in
+      out_s "OK"; out_hex (st_to_ascii_l p1 p2 d1 d2 fold ul l)
+  | "JSON2WL" ->
+      (* JSON2WL d1 d2 l1 l2 fold n (tranges sranges)*  : the 2-D JSON document, elements labelled l1 / l2 *)
+      let d1 = next_n r in let d2 = next_n r in
+      let l1 = next_n r in let l2 = next_n r in
+      let fold = next_fold r in
+      let w64 = n_of_int 64 in
+      let cells q d l = (match moc_cells_o q w64 d l with Some c -> c | None -> raise (Parse_error "cells-fuel")) in
+      let l = next_list r (fun r -> let a = next_ranges r in let b = next_ranges r in ((l1, cells Time l1 a), (l2, cells Hpx l2 b))) in
+      out_s "OK"; out_hex (st_to_json_l (n_of_int 116) (n_of_int 115) d1 d2 fold l)
   | "HIST" -> handle_hist r
   | "MSET" -> handle_mset r
   | "TEXTV" ->
